@@ -28,7 +28,7 @@ ASSUMPTIONS = [
 ]
 COMPONENTS = c10.COMPONENTS | {"real_extra": ["filesystem (scratch dir) for targets and weights", "numba-compiled fitness functions"]}
 BUDGET = {"quick": {"n": 80, "wall": 115, "determinism": 2}, "thorough": {"n": 2000, "wall": 1700, "determinism": 6}}
-REQUIRED_REACH = ["range:equal", "range:shifted", "range:unequal", "range:oob", "range:none", "weights:list", "weights:file", "pairs>1", "multi_readout", "fitness:sum_of_abs_residuals", "fitness:sum_of_squared_residuals", "fitness:reduced_chi_squared", "simulated_checked", "simulated_computed_under_scheduler", "evolutions>1"]
+REQUIRED_REACH = ["algo:nlopt", "algo:sade", "algo:sga", "range:equal", "range:shifted", "range:unequal", "range:oob", "range:none", "weights:list", "weights:file", "pairs>1", "multi_readout", "fitness:sum_of_abs_residuals", "fitness:sum_of_squared_residuals", "fitness:reduced_chi_squared", "simulated_checked", "simulated_computed_under_scheduler", "evolutions>1"]
 
 
 def generate(rng, tier):
@@ -130,6 +130,7 @@ def execute(scn, forced=None):
         stats["multi_readout"] = 1
     if m["num_evolutions"] > 1:
         stats["evolutions>1"] = 1
+    stats["algo:" + m["algorithm"]["type"]] = 1
     feat = feat_of(scn)
     valid = kind in ("equal", "shifted", "none")
     under_sim = m["num_islands"] >= 2 and valid
